@@ -50,7 +50,9 @@ def gen_cases(tier, seed):
         mode = "strace" if r.random() < (0.06 if tier == "quick" else 0.12) else "shim"
         out.append({"seed": s, "mode": mode, "store": r.choice(["json", "pickle", "text", "binary", "touch", "staged_write", "staged_write_path"]),
                     "path": r.choice(["str", "pathlib"]), "present": r.random() < 0.7,
-                    "value": r.choice(["small", "small", "chunks", "empty", "bad"])})
+                    # the existing target may be reached through a symbolic link or have a second hard link (a data file shared by name)
+                    "link": r.choice([None, None, None, "symlink", "hardlink"]),
+                    "value": r.choice(["small", "small", "chunks", "empty", "bad", "mixedkeys"])})
     for i in range(max(8, n // 14)):
         # two or three stores whose files are siblings (same stem) written at the same time with their file operations interleaved one at a
         # time: each target must end up holding its own complete value (shared with C08's file mode)
@@ -61,6 +63,11 @@ def gen_cases(tier, seed):
 
 def make_value(store, vclass, r):
     """returns (value, serialisation_fails)"""
+    if vclass == "mixedkeys":
+        if store == "json":
+            # legal for json.dump (keys are coerced to strings) but the keys cannot be ordered among themselves
+            return {"a": [1, 2], 1: "one", None: {"x": 2, 3: [None]}, "z": {2.5: 1, "k": 2}}, False
+        vclass = "small"
     if store == "json":
         if vclass == "small":
             return {"a": [1, 2, {"b": None}], "s": "x" * r.randint(0, 20)}, False
@@ -98,6 +105,13 @@ def make_value(store, vclass, r):
             return "not-none", True
         return None, False
     raise AssertionError(store)
+
+
+def _json_differs(raw, value):
+    try:
+        return json.loads(raw.decode()) != json.loads(json.dumps(value))
+    except Exception:
+        return True
 
 
 class UserError(Exception):
@@ -144,6 +158,8 @@ def snapshot(d):
     out = {}
     for name in sorted(os.listdir(d)):
         p = os.path.join(d, name)
+        if os.path.isdir(p) and not os.path.islink(p):
+            continue  # side directory holding the real file behind a symbolic link / the second hard link
         st = os.stat(p)
         with open(p, "rb") as f:
             out[name] = (f.read(), st.st_mtime_ns, st.st_ino)
@@ -154,10 +170,23 @@ def setup_dir(r, desc, old_bytes):
     d = tempfile.mkdtemp(prefix="vmon-c11-")
     base = os.path.join(d, "target.dat")
     if desc["present"]:
-        with open(base, "wb") as f:
+        link = desc.get("link")
+        real = base
+        if link == "symlink":
+            # the data lives outside the watched directory; target.dat is a symbolic link to it
+            side = os.path.join(d, "side")
+            os.mkdir(side)
+            real = os.path.join(side, "real.dat")
+        with open(real, "wb") as f:
             f.write(old_bytes)
         t = 1_600_000_000 + r.randint(0, 10**6)
-        os.utime(base, (t, t))
+        os.utime(real, (t, t))
+        if link == "symlink":
+            os.symlink(real, base)
+        elif link == "hardlink":
+            side = os.path.join(d, "side")
+            os.mkdir(side)
+            os.link(base, os.path.join(side, "other-name.dat"))
     return d, base
 
 
@@ -271,6 +300,8 @@ def run_case(desc):
                 bad, mech = "clean write left no target file", "atomicity"
             elif [n for n in after if n != "target.dat"]:
                 bad, mech = f"clean write left extra files {sorted(after)}", "staging-left"
+            elif desc["store"] == "json" and _json_differs(new_bytes, value):
+                bad, mech = (f"a JSON write that returned normally left a file that does not parse back to the value written: {new_bytes[:80]!r}..."), "atomicity"
             elif new_bytes != ref_bytes:
                 bad, mech = (f"a write that returned normally over an existing file left {len(new_bytes)} bytes ({new_bytes[:30]!r}...), but the complete new value "
                              f"(same write to a fresh path) is {len(ref_bytes)} bytes: the previous content was not replaced"), "atomicity"
